@@ -371,6 +371,111 @@ pub fn history_oracle(h: &History) -> Verdict {
         .class(format!("final_count_{}", match sv.element_count() { 0 => "0", 1..=5 => "1-5", 6..=20 => "6-20", _ => "21+" })))
 }
 
+// ------------------------------------------------------------------ the separate "empty" value
+
+/// `CqlValue::Empty` placed at one position of an otherwise fitting dynamic value. The driver documents
+/// (`ColumnType::supports_special_empty_value`) which types have the separate empty representation: every native
+/// but counter and duration, plus tuples and vectors; lists, sets, maps and UDTs do not. Strings and blobs are
+/// left unjudged (their zero-length cell is an ordinary value).
+#[derive(Debug, Clone, Serialize, Deserialize)]
+pub struct EmptyCase {
+    pub column: MType,
+    /// child indexes from the column's type down to the position that holds Empty (map: 0 = key, 1 = value)
+    pub path: Vec<u8>,
+}
+
+fn child_types(t: &MType) -> Vec<MType> {
+    match t {
+        MType::Native(_) => vec![],
+        MType::List(e) | MType::Set(e) | MType::Vector(e, _) => vec![(**e).clone()],
+        MType::Map(k, v) => vec![(**k).clone(), (**v).clone()],
+        MType::Tuple(ts) => ts.clone(),
+        MType::Udt { fields, .. } => fields.iter().map(|(_, t)| t.clone()).collect(),
+    }
+}
+
+fn empty_paths(t: &MType, prefix: &mut Vec<u8>, out: &mut Vec<Vec<u8>>) {
+    out.push(prefix.clone());
+    for (i, c) in child_types(t).iter().enumerate() {
+        prefix.push(i as u8);
+        empty_paths(c, prefix, out);
+        prefix.pop();
+    }
+}
+
+/// Returns the value with Empty at `path`, the type of that position, and whether a vector lies above it.
+fn put_empty(t: &MType, m: &MVal, path: &[u8]) -> Option<(MVal, MType)> {
+    use MVal as V;
+    let Some((&i, rest)) = path.split_first() else { return Some((V::Empty, t.clone())) };
+    let i = i as usize;
+    Some(match (t, m) {
+        (MType::List(e), V::List(items)) | (MType::Set(e), V::Set(items)) | (MType::Vector(e, _), V::Vector(items)) => {
+            let (x, at) = put_empty(e, items.first()?, rest)?;
+            let mut items = items.clone();
+            items[0] = x;
+            (match t { MType::List(_) => V::List(items), MType::Set(_) => V::Set(items), _ => V::Vector(items) }, at)
+        }
+        (MType::Map(k, v), V::Map(pairs)) => {
+            let mut pairs = pairs.clone();
+            let first = pairs.first()?.clone();
+            let at = if i == 0 {
+                let (x, at) = put_empty(k, &first.0, rest)?;
+                pairs[0].0 = x;
+                at
+            } else {
+                let (x, at) = put_empty(v, &first.1, rest)?;
+                pairs[0].1 = x;
+                at
+            };
+            (V::Map(pairs), at)
+        }
+        (MType::Tuple(ts), V::Tuple(fs)) => {
+            let (x, at) = put_empty(ts.get(i)?, fs.get(i)?, rest)?;
+            let mut fs = fs.clone();
+            fs[i] = x;
+            (V::Tuple(fs), at)
+        }
+        (MType::Udt { fields, .. }, V::Udt(fs)) => {
+            let (x, at) = put_empty(&fields.get(i)?.1, &fs.get(i)?.1, rest)?;
+            let mut fs = fs.clone();
+            fs[i].1 = x;
+            (V::Udt(fs), at)
+        }
+        _ => return None,
+    })
+}
+
+pub fn empty_oracle(c: &EmptyCase) -> Verdict {
+    let t = &c.column;
+    let ct = column_type(t);
+    let w = dynamic_witness(t, 0x5eed ^ hash_of(&format!("{:?}", c.path)));
+    let (m, at) = put_empty(t, &w, &c.path).ok_or_else(|| bad("harness", format!("no position {:?} in {t:?}", c.path)))?;
+    // elements of a vector are written without a length when their type has a fixed size: whether such an element
+    // can be "empty" is not documented anywhere, so acceptance below a vector is not judged (refusal still is)
+    fn below_vector(t: &MType, path: &[u8]) -> bool {
+        let Some((&i, rest)) = path.split_first() else { return false };
+        matches!(t, MType::Vector(..)) || child_types(t).get(i as usize).is_some_and(|c| below_vector(c, rest))
+    }
+    let rel = match &at {
+        MType::Native(Nat::Counter | Nat::Duration) | MType::List(_) | MType::Set(_) | MType::Map(..) | MType::Udt { .. } => Rel::Reject,
+        MType::Native(n) if n.zero_len_is_regular() => Rel::Unspecified,
+        _ if below_vector(t, &c.path) => Rel::Unspecified,
+        _ => Rel::Accept,
+    };
+    let cql = crate::glue::to_cql(t, &m).ok_or_else(|| bad("harness", format!("no CqlValue for {m:?}")))?;
+    let mut sv = SerializedValues::new();
+    sv.add_value(&7i32, &ColumnType::Native(scylla_cql_core::frame::response::result::NativeType::Int)).map_err(|e| bad("harness", e.to_string()))?;
+    sv.add_value(&"ab", &ColumnType::Native(scylla_cql_core::frame::response::result::NativeType::Text)).map_err(|e| bad("harness", e.to_string()))?;
+    let before = sv_bytes(&sv);
+    let count_before = sv.element_count();
+    let res = sv.add_value(&cql, &ct).map_err(|e| e.to_string());
+    let who = format!("CqlValue holding Empty at position {:?} (a {at:?})", c.path);
+    check_bind(rel, &who, t, &before, count_before, &sv, &res, Some(&m))?;
+    Ok(CaseInfo::new(!c.path.is_empty() && rel == Rel::Reject)
+        .class(match rel { Rel::Accept => "empty_accepted", Rel::Reject => "empty_refused", Rel::Unspecified => "empty_unjudged" })
+        .class_if(!c.path.is_empty(), "nested_position"))
+}
+
 /// A fully populated model value of type `t` (no nulls, no empty collections).
 pub fn dynamic_witness(t: &MType, seed: u64) -> MVal {
     use MVal as V;
@@ -425,7 +530,7 @@ pub fn run(ctx: &Ctx, rep: &mut Report) {
     LEVELS.store(ctx.tier.pick(2, 3), std::sync::atomic::Ordering::SeqCst);
     let tb = tables();
     rep.rule = format!(
-        "matrix (exhaustive): {} Rust carrier types (every leaf type the driver implements the value traits for - std, value::*, chrono, time, num-bigint 0.3/0.4, bigdecimal, secrecy, a derived UDT struct - alone and inside Option / Vec / Vec<Vec> / HashSet / BTreeSet / HashMap / BTreeMap / tuples / Box / Arc / MaybeEmpty, plus borrowed and serialize-only forms) x {} column types (20 natives; 20 one-level collections/tuples/UDTs/vectors per native; a second level over the lists, sets, vectors, maps and tuples; the thorough tier adds a third level). Per cell: a fully populated witness value is bound through SerializedValues::add_value after two earlier values and through a whole row (i32, T); DeserializeValue::type_check and the row (i32, T) type_check are called (the latter also against rows of 0, 1 and 3 columns, which never fit a 2-tuple). The relation Accept/Reject/Unspecified is derived from docs/source/data-types (Unspecified - HashSet/BTreeSet for a list column, a Rust tuple shorter than the column's - may go either way). Accepted binds must decode (reference decoder) to the witness; refused binds must leave bytes and count untouched; element_count() == iter().count() == the parsed cell count always. histories: 1..24 binds into one SerializedValues - typed witnesses into accepted / rejected columns, values failing after part of them was written (a mistyped element at position k of a list/set/vector/map, a later tuple or UDT field, an inner list, a wrong vector dimension, an unknown UDT field), conversion overflows (BigDecimal exponent, leap-second NaiveTime), dynamic values; 2% of histories start 0..3 values short of 65 535 so that the 65 536th is attempted. Non-trivial = (matrix) a rejected pair with a nested column type; (histories) a failure after a partial write with other values present.",
+        "matrix (exhaustive): {} Rust carrier types (every leaf type the driver implements the value traits for - std, value::*, chrono, time, num-bigint 0.3/0.4, bigdecimal, secrecy, a derived UDT struct - alone and inside Option / Vec / Vec<Vec> / HashSet / BTreeSet / HashMap / BTreeMap / tuples / Box / Arc / MaybeEmpty, plus borrowed and serialize-only forms) x {} column types (20 natives; 20 one-level collections/tuples/UDTs/vectors per native; a second level over the lists, sets, vectors, maps and tuples; the thorough tier adds a third level). Per cell: a fully populated witness value is bound through SerializedValues::add_value after two earlier values and through a whole row (i32, T); DeserializeValue::type_check and the row (i32, T) type_check are called (the latter also against rows of 0, 1 and 3 columns, which never fit a 2-tuple). The relation Accept/Reject/Unspecified is derived from docs/source/data-types (Unspecified - HashSet/BTreeSet for a list column, a Rust tuple shorter than the column's - may go either way). Accepted binds must decode (reference decoder) to the witness; refused binds must leave bytes and count untouched; element_count() == iter().count() == the parsed cell count always. empties (exhaustive): CqlValue::Empty at every position (top level, collection element, map key/value, tuple/UDT field, recursively) of a fitting dynamic value for every column type - refused where the position's type has no separate empty representation (counter, duration, list, set, map, UDT), accepted as a zero-length cell elsewhere (strings and blobs unjudged). histories: 1..24 binds into one SerializedValues - typed witnesses into accepted / rejected columns, values failing after part of them was written (a mistyped element at position k of a list/set/vector/map, a later tuple or UDT field, an inner list, a wrong vector dimension, an unknown UDT field), conversion overflows (BigDecimal exponent, leap-second NaiveTime), dynamic values; 2% of histories start 0..3 values short of 65 535 so that the 65 536th is attempted. Non-trivial = (matrix) a rejected pair with a nested column type; (histories) a failure after a partial write with other values present.",
         tb.carriers.len(),
         tb.types.len()
     );
@@ -437,6 +542,7 @@ pub fn run(ctx: &Ctx, rep: &mut Report) {
     if let Some((check, case_v)) = &ctx.replay {
         match check.as_str() {
             "histories" => replay_case::<History, _>(rep, check, case_v, history_oracle),
+            "empties" => replay_case::<EmptyCase, _>(rep, check, case_v, empty_oracle),
             _ => replay_case::<Cell, _>(rep, check, case_v, cell_oracle),
         }
         return;
@@ -479,5 +585,18 @@ pub fn run(ctx: &Ctx, rep: &mut Report) {
     finish_direct(rep, "matrix", st, fails, true);
     rep.notes.push(format!("matrix wall {:.1}s", t_matrix.elapsed().as_secs_f64()));
     rep.notes.push(format!("matrix: all {} carriers x {} column types", tb.carriers.len(), tb.types.len()));
+    // the separate empty value at every position of every column type
+    {
+        let mut st = Stats::default();
+        let mut fails = vec![];
+        for t in &tb.types {
+            let mut paths = vec![];
+            empty_paths(t, &mut vec![], &mut paths);
+            for path in paths {
+                eval_direct(&mut st, &mut fails, &EmptyCase { column: t.clone(), path }, empty_oracle);
+            }
+        }
+        finish_direct(rep, "empties", st, fails, true);
+    }
     run_prop_par(rep, "histories", ctx.tier.pick(20_000, 1_000_000), ncpu(), history, history_oracle);
 }
